@@ -92,6 +92,12 @@ impl CopyHandle {
         while written < len {
             let bytes_to_copy = cmp::min(len - written, self.config.block_size);
             let bytes = copy_file_bytes(&self.infd, &self.outfd, bytes_to_copy)? as u64;
+            if bytes == 0 {
+                // End of file although there should be more: the source
+                // shrank (or over-reports its size). Looping on would
+                // never terminate.
+                return Err(XcpError::CopyError(format!("Source file ended prematurely: {:?}", self.infd)).into());
+            }
             written += bytes;
             updates.send(StatusUpdate::Copied(bytes))?;
         }
